@@ -15,6 +15,7 @@ RULE = (
     "or raises; the peer also sends C-ECHO/C-STORE requests in the same segment as the request, before reading the answer and "
     "after it; non-trivial = at least one policy check is enabled; distinct = distinct (policy, title relation, identity, "
     "handler behaviour, pipelining) tuples (inputs dominate)"
+    " The identity handler is bound with the server's start, later on the running server, or rotated on the running server (bind the new handler, then unbind the old permissive one)."
 )
 STUBS = ["scripted RawPeer (requestor)"]
 
